@@ -251,7 +251,9 @@ def run(ctx):
         f = program.func(uid)
         creates = [n for n in body_walk(f) if isinstance(n, ast.Call) and call_name(n) == "Function.create_task"]
         if not creates:
-            raise AnalysisError(f"{uid}: Function.create_task call not found")
+            ctx.fail("R14.10", uid, "the run is started in a task of its own", f"{uid}: no Function.create_task call: the script function is not run in a task of its own "
+                     f"(its done callbacks, unique names and cancellation would be those of whatever task happens to call the handler)", rel=uid.split("::")[0], node=f)
+            continue
         regs = [n for n in body_walk(f) if isinstance(n, ast.Call) and call_name(n) == "Function.task_done_callback_ctx"]
         for c in creates:
             kw = {k.arg: k.value for k in c.keywords}
